@@ -190,11 +190,15 @@ func sizePick(rng *vh.Rng, big bool) int {
 // suiteRespPath (C03): scripted raw-TCP backend -> real ReverseProxy + forwarder (agent child)
 // -> real stand-alone proxy -> client.
 func suiteRespPath(e *vh.Env) {
-	e.Result.Rule = "scripted backend wire responses (final status 200..599, repeated Set-Cookie and other end-to-end fields, hop-by-hop fields, bodies 0/1/2/4095..4097/32 KiB/1 MiB, Content-Length or chunked with chunk sizes incl. a 1-byte first chunk, 0..5 declared and 0..2 undeclared trailers, interim 100/102/103 responses, HEAD/204/304) through real agent code and the real proxy binary; the client's parse is compared with the script; non-trivial = response with at least two trailers, an interim response, or a 1-byte first chunk"
+	e.Result.Rule = "scripted backend wire responses (final status 200..599, repeated Set-Cookie and other end-to-end fields, hop-by-hop fields, bodies 0/1/2/4095..4097/32 KiB/1 MiB, Content-Length or chunked with chunk sizes incl. a 1-byte first chunk, 0..5 declared and 0..2 undeclared trailers, interim 100/102/103 responses, HEAD/204/304) through real agent code and the real proxy binary, every fourth case with session tracking on; the client's parse is compared with the script; non-trivial = response with at least two trailers, an interim response, or a 1-byte first chunk"
 	be := newRawBackend()
 	rig := startProxy()
 	defer rig.stop()
 	rig.startAgent(be.host())
+	// a second proxy/agent pair with session tracking on: the response passes one more wrapper (sessionResponseWriter)
+	rigS := startProxy()
+	defer rigS.stop()
+	rigS.startAgent(be.host(), "VERIF_AGENT_SESSION_COOKIE=vsess", "VERIF_AGENT_SESSION_LIMIT=50")
 	n := e.N(120, 5000)
 	sem := make(chan struct{}, 8)
 	var wg sync.WaitGroup
@@ -244,7 +248,12 @@ func suiteRespPath(e *vh.Env) {
 			be.mu.Lock()
 			be.scripts[cs] = s.wire()
 			be.mu.Unlock()
-			req, _ := http.NewRequest(s.method, rig.proxyURL+"resp/"+cs, nil)
+			withSessions := i%4 == 3
+			base := rig.proxyURL
+			if withSessions {
+				base = rigS.proxyURL
+			}
+			req, _ := http.NewRequest(s.method, base+"resp/"+cs, nil)
 			req.Header.Set("X-Case", cs)
 			req.Header.Set("Accept-Encoding", "identity")
 			cl := &http.Client{Transport: &http.Transport{DisableKeepAlives: true, DisableCompression: true}, Timeout: 60 * time.Second,
@@ -256,7 +265,7 @@ func suiteRespPath(e *vh.Env) {
 			}
 			body, rerr := io.ReadAll(resp.Body)
 			resp.Body.Close()
-			what := fmt.Sprintf("case %d: backend sent %s %d interim=%v body=%d chunks=%v declared=%d undeclared=%d", i, s.method, s.status, s.interim, len(s.body), s.chunks, len(s.declared), len(s.undecl))
+			what := fmt.Sprintf("case %d: backend sent %s %d interim=%v body=%d chunks=%v declared=%d undeclared=%d sessions=%v", i, s.method, s.status, s.interim, len(s.body), s.chunks, len(s.declared), len(s.undecl), withSessions)
 			if rerr != nil {
 				e.Fail("C03:body-read-error", what+": "+rerr.Error(), i, nil, nil, nil)
 				return
@@ -287,6 +296,9 @@ func suiteRespPath(e *vh.Env) {
 				if nobody && (name == "Content-Type") {
 					continue // entity headers may be omitted for HEAD/204/304
 				}
+				if withSessions && name == "Set-Cookie" {
+					continue // intercepted by session tracking (C10)
+				}
 				want := valuesOf(s.hdr, name)
 				if strings.Join(got, "\x00") != strings.Join(want, "\x00") {
 					e.Fail("C03:header-altered", fmt.Sprintf("%s; header %s: client received %q, backend sent %q", what, name, got, want), i, nil, got, want)
@@ -315,6 +327,9 @@ func suiteRespPath(e *vh.Env) {
 	}
 	wg.Wait()
 	if c := rig.crashed(); c != "" {
+		e.Fail("C03:process-crashed", c, -1, nil, nil, nil)
+	}
+	if c := rigS.crashed(); c != "" {
 		e.Fail("C03:process-crashed", c, -1, nil, nil, nil)
 	}
 }
